@@ -1229,8 +1229,31 @@ struct Value {
             }
 
             case ValueType::Array: {
-                SizeT index;
-                Digit::FastStringToNumber(index, key, length);
+                // Only a plain decimal number that names an existing item is an index; anything else is no key
+                // of an array. The running value stays below Size(), so it cannot wrap.
+                SizeT64 index  = 0;
+                SizeT   offset = 0;
+
+                if (length == 0) {
+                    return nullptr;
+                }
+
+                while (offset < length) {
+                    const Char_T digit = key[offset];
+
+                    if ((digit < DigitUtils::DigitChar::Zero) || (digit > DigitUtils::DigitChar::Nine)) {
+                        return nullptr;
+                    }
+
+                    index *= SizeT64{10};
+                    index += SizeT64(digit - DigitUtils::DigitChar::Zero);
+
+                    if (index >= array_.Size()) {
+                        return nullptr;
+                    }
+
+                    ++offset;
+                }
 
                 if (index < array_.Size()) {
                     Value *val = (array_.Storage() + index);
